@@ -48,7 +48,10 @@ C12ExecsS == {VX, VXsub, VZ}
 \* ---- C13 ----
 \* script transactions and transactions of a foreign para chain (executed by the none driver)
 C13Execs == {VX, VXother}
-C13Conds == {[proc |-> p, gmp |-> n] : p \in {"long", "fresh"}, n \in {1, 2, 16}}
+\* long: the long-running process (after whatever preceded); fresh: a new child process; conc: the
+\* long-running process serving several EventExecTxList requests for the block at once
+C13Conds == {[proc |-> p, gmp |-> n] : p \in {"long", "fresh"}, n \in {1, 2, 16}} \cup
+            {[proc |-> "conc", gmp |-> n] : n \in {2, 16}}
 C13Acts == {"gc", "query", "side", "checktx"}
 C13CondsS == {[proc |-> "long", gmp |-> 1], [proc |-> "fresh", gmp |-> 16]}
 C13ActsS == {"side"}
